@@ -816,6 +816,10 @@ func (nl *NodeList) indexConnectedNodes(id string) nodeIndex {
 // it hits a node in the boundaries list.
 func (nl *NodeList) connectedIndexRecursion(id string, boundaries *rootElementsIndex, connectedNodes *nodeIndex) {
 	siblings := nl.NodeSiblings(id)
+	if siblings == nil {
+		// NodeSiblings returns nil for the empty identifier
+		return
+	}
 	for _, s := range siblings.Nodes {
 		// If we've seen it, skip
 		if _, ok := (*connectedNodes)[s.Id]; ok {
